@@ -109,13 +109,13 @@ func (tree *Tree[T]) Name() string { return tree.name }
 //
 // methods 可以为空，表示采用 [AnyMethods] 中的值。
 func (tree *Tree[T]) Add(pattern string, h T, ms []types.Middleware[T], methods ...string) error {
-	if err := tree.checkAmbiguous(pattern); err != nil {
-		return err
-	}
-
 	if tree.locker != nil {
 		tree.locker.Lock()
 		defer tree.locker.Unlock()
+	}
+
+	if err := tree.checkAmbiguous(pattern); err != nil {
+		return err
 	}
 
 	if len(methods) == 0 {
@@ -224,15 +224,6 @@ func (tree *Tree[T]) Remove(pattern string, methods ...string) {
 	tree.buildMethods(-1, removed...)
 }
 
-// 此方法主要用于将 locker 的使用范围减至最小。
-func (tree *Tree[T]) match(ctx *types.Context) *node[T] {
-	if tree.locker != nil {
-		tree.locker.RLock()
-		defer tree.locker.RUnlock()
-	}
-	return tree.node.matchChildren(ctx)
-}
-
 // Handler 查找与参数匹配的处理对象
 //
 // 如果未找到，也会返回相应在的处理对象，比如 tree.notFound 或是相应的 methodNotAllowed 方法。
@@ -243,11 +234,17 @@ func (tree *Tree[T]) Handler(ctx *types.Context, method string) (types.Node, T, 
 		return tree.node, tree.trace, true
 	}
 
+	// 节点的 handlers 会被 Add 和 Remove 修改，查找处理函数也必须在锁的范围之内。
+	if tree.locker != nil {
+		tree.locker.RLock()
+		defer tree.locker.RUnlock()
+	}
+
 	var node *node[T]
 	if ctx.Path == "*" || ctx.Path == "" {
 		node = tree.node
 	} else {
-		node = tree.match(ctx)
+		node = tree.node.matchChildren(ctx)
 	}
 
 	if node == nil || node.size() == 0 {
@@ -288,6 +285,11 @@ func (tree *Tree[T]) Find(pattern string) *node[T] { return tree.node.find(patte
 //
 // NOTE: 会检测 pattern 是否存在于 tree 中。
 func (tree *Tree[T]) URL(buf *errwrap.StringBuilder, pattern string, ps map[string]string) error {
+	if tree.locker != nil {
+		tree.locker.RLock()
+		defer tree.locker.RUnlock()
+	}
+
 	n := tree.Find(pattern)
 	if n == nil || n.size() == 0 { // 没有处理函数的节点只是其它路由项的公共前缀
 		return fmt.Errorf("%s 并不是一条有效的注册路由项", pattern)
